@@ -160,6 +160,13 @@ def partitions(tier, seed):
         lo, hi = (m, min(m + 3, 8)) if quick else (0, min(m + 4, 12))
         for n in range(lo, hi + 1):
             parts.append(sp.S(P, "C08", k, n, budget=30 if quick else 150))
+    # structure types with a union member: the selector bytes are symbolic too (a selector that is invalid for
+    # its own interface type may still select a member of the shared union)
+    for k in sp.struct_keys():
+        if T[k].get("selectors") and k not in region_types:
+            m = sp.min_size(k)
+            for n in range(m, min(m + 2, 9) if quick else min(m + 4, 12)):
+                parts.append(sp.S(P, "C08", k, n, budget=30 if quick else 120))
     for k in sp.prim_keys():
         parts.append(sp.S(P, "C08", k, T[k]["width"], budget=25))
     from . import synth
